@@ -288,7 +288,7 @@ func c15MultiFile(c *Check, pool *NodePool) {
 	for ci, cs := range cases {
 		dir := filepath.Join(root, fmt.Sprintf("m%d", ci))
 		writeTree(dir, cs.files)
-		g := &ggraph{mods: []gmod{{"a", true, "exports"}}}
+		g := &ggraph{mods: []gmod{{"a", true, "exports", false}}}
 		gcases := []graphCase{{Files: cs.files, Entry: "a.mjs", How: "import"}}
 		var names []string
 		for _, cfg := range cfgs {
